@@ -20,6 +20,14 @@ type (
 	DBFT    = dbft.DBFT[vt.H]
 )
 
+// BlockTimes is what the block-time callbacks return right now for this node.
+func (n *Node) BlockTimes() (time.Duration, time.Duration) {
+	if f := n.W.Cfg.BlockTimeByTip; f != nil {
+		return f(n.Tip)
+	}
+	return n.W.Cfg.TimePerBlock, n.W.Cfg.MaxTimePerBlock
+}
+
 // PolicyRejected: proposals with these nonces fail the application's VerifyPrepareRequest.
 func PolicyRejected(nonce uint64) bool { return nonce >= 0xBAD0 && nonce <= 0xBAD3 }
 
@@ -238,7 +246,7 @@ func (n *Node) newDBFT() {
 	opts := []func(*dbft.Config[vt.H]){
 		dbft.WithTimer[vt.H](n.Timer),
 		dbft.WithLogger[vt.H](zap.NewNop()),
-		dbft.WithTimePerBlock[vt.H](func() time.Duration { return w.Cfg.TimePerBlock }),
+		dbft.WithTimePerBlock[vt.H](func() time.Duration { t, _ := n.BlockTimes(); return t }),
 		dbft.WithTimestampIncrement[vt.H](w.Cfg.TsIncrement),
 		dbft.WithCurrentHeight[vt.H](func() uint32 { return n.Tip }),
 		dbft.WithCurrentBlockHash[vt.H](func() vt.H { return n.TipHash }),
@@ -337,7 +345,7 @@ func (n *Node) newDBFT() {
 	}
 	if w.Cfg.MaxTimePerBlock > 0 {
 		opts = append(opts,
-			dbft.WithMaxTimePerBlock[vt.H](func() time.Duration { return w.Cfg.MaxTimePerBlock }),
+			dbft.WithMaxTimePerBlock[vt.H](func() time.Duration { _, m := n.BlockTimes(); return m }),
 			dbft.WithSubscribeForTxs[vt.H](func() {
 				n.Subscribed = true
 				n.ev(EvSubscribe, nil, "")
